@@ -17,9 +17,15 @@ EXTENDS OmkmDoc, TLCExt, Json, IOUtils
 TraceLog == ndJsonDeserialize(IOEnv.TRACE_FILE)
 VARIABLES l, st
 
-Fresh(e) == [fmt |-> e.fmt, ok |-> e.raised = "" /\ e.loaded, exp |-> e.exp,
-             rid |-> <<>>, iid |-> <<>>, bid |-> <<>>, sp |-> <<>>, ph |-> <<>>]
-Idle == [fmt |-> "", ok |-> FALSE, exp |-> <<>>, rid |-> <<>>, iid |-> <<>>, bid |-> <<>>, sp |-> <<>>, ph |-> <<>>]
+NoPrev == [ok |-> FALSE, pairs |-> {}]
+\* what the YAML file said about BEPs, remembered while the CTI file of the same model is read
+PrevOf(e) == IF e.fmt = "yaml" THEN NoPrev
+             ELSE IF st.fmt = "yaml" THEN [ok |-> st.ok, pairs |-> {<<st.bk[i], st.bid[i]>> : i \in 1..Len(st.bk)}]
+             ELSE st.prev
+Fresh(e) == [fmt |-> e.fmt, ok |-> e.raised = "" /\ e.loaded, exp |-> e.exp, prev |-> PrevOf(e),
+             rid |-> <<>>, iid |-> <<>>, bid |-> <<>>, bk |-> <<>>, sp |-> <<>>, ph |-> <<>>]
+Idle == [fmt |-> "", ok |-> FALSE, exp |-> <<>>, prev |-> NoPrev, rid |-> <<>>, iid |-> <<>>, bid |-> <<>>,
+         bk |-> <<>>, sp |-> <<>>, ph |-> <<>>]
 
 Clauses(e) ==
    CASE e.ev = "begin" -> BeginVerdict(e)
@@ -35,7 +41,7 @@ Step(e) ==
    CASE e.ev = "begin" -> Fresh(e)
      [] e.ev = "reaction" -> [st EXCEPT !.rid = Append(@, e.obs.idc)]
      [] e.ev = "interaction" -> [st EXCEPT !.iid = Append(@, e.obs.idc)]
-     [] e.ev = "bep" -> [st EXCEPT !.bid = Append(@, e.obs.idc)]
+     [] e.ev = "bep" -> [st EXCEPT !.bid = Append(@, e.obs.idc), !.bk = Append(@, e.ek)]
      [] e.ev = "species" -> [st EXCEPT !.sp = Append(@, e.obs.name)]
      [] e.ev = "phase" -> [st EXCEPT !.ph = Append(@, e.obs.name)]
      [] OTHER -> st
